@@ -3,6 +3,7 @@
    decoders/encoders of sx, no logic that a property theorem speaks about. *)
 From Coq Require Import ZArith List Bool.
 From V Require Import Result Bytes TypeName Utf8 Float32 Codec AuxTable.
+From V Require World WorldRun.
 Import ListNotations.
 Open Scope Z_scope.
 
@@ -139,5 +140,7 @@ Definition run (req : sx) : sx :=
     L (run_table (getter_of_sx g) (load (un_zs tn) (un_zs raw)) (un_zs tn, un_zs raw) ops)
   | L [A 11; g; tn; v; L ops] =>
     L (run_table (getter_of_sx g) (fresh (un_zs tn) (value_of_sx v)) (un_zs tn, []) ops)
+  (* 20: a history over the object-graph model *)
+  | L [A 20; items] => WorldRun.run_world items
   | _ => L [A (-2)]
   end.
